@@ -342,7 +342,13 @@ def run(repo, chk):
                 if any(gpp.path_exists(s0, h, avoid=marks, labels=("n", "t", "f")) for h in loop_heads) or gpp.path_exists(s0, gpp.exit, avoid=marks, labels=("n", "t", "f")):
                     return False
         return True
-    tokp = pr.node.args.args[1].arg
+    # the token source: whatever local the advance `right = S.pop() if S else None` pops from (the reversed token list)
+    advs = {norm(n.value) for n in walk_local(pr.node) if isinstance(n, ast.Assign) and any(is_name(t, "right") for t in n.targets) and isinstance(n.value, ast.IfExp)
+            and isinstance(n.value.test, ast.Name) and norm(n.value) == f"{n.value.test.id}.pop() if {n.value.test.id} else None"}
+    tokp = sorted(advs)[0].split(".")[0] if len(advs) == 1 else pr.node.args.args[1].arg
+    srcs_ = [norm(n.value) for n in walk_local(pr.node) if isinstance(n, ast.Assign) and any(is_name(t, tokp) for t in n.targets)]
+    chk.ob("R15.3", "opparse.Parser.process:tokens-taken-in-source-order", srcs_ == [f"list(reversed({pr.node.args.args[1].arg}))"], pr.where,
+           f"the parser pops from the reversed token list, i.e. takes the tokens first to last (source of `{tokp}`: {srcs_})")
     chk.ob("R15.3", "opparse.Parser.process:positive-opens", under(f"{ordv} > 0", "stack.append(current)", f"right = {tokp}.pop() if {tokp} else None"),
            pr.where, "a positive order opens a new handle and advances")
     chk.ob("R15.3", "opparse.Parser.process:negative-closes", under(f"{ordv} < 0", "middle = self.finalize(current)", "current = stack.pop()"),
